@@ -7,7 +7,7 @@ for d in sorted(glob.glob('/verif/seeded/*/meta.json')):
     rows.append((m['id'], m['property_broken'], ", ".join(m['caught_by']) or "-", ", ".join(m['missed_by']) or "-",
                  m['needs_to_manifest']))
 txt = "\n## 10. Which checks catch which seeded changes\n\n"
-txt += ("%d changes were written by independent sub-agents in seven rounds, each agent given only the text of one\n"
+txt += ("%d changes were written by independent sub-agents in eight rounds, each agent given only the text of one\n"
         "property and a scratch worktree of /repo (nothing from /verif), and asked for a change that compiles, passes the\n"
         "289 pinned tests and needs something specific to manifest (the third round was told to avoid name collisions and\n"
         "missing copies, and to look for early-stopping fixpoints, incrementally updated caches, asymmetric operands,\n"
@@ -15,7 +15,9 @@ txt += ("%d changes were written by independent sub-agents in seven rounds, each
         "constructor-argument paths, values of different types and falsy values; the sixth the same for the other half of the\n"
         "properties; the seventh at early-return fast paths, mutator methods, argument forms -- list / set / tuple / one-shot\n"
         "iterator --, `is` versus `==`, `x or default` on falsy values, lazily bound loop variables, drifting symmetrical\n"
-        "code paths). Each was confirmed here in a scratch worktree of /repo HEAD\n"
+        "code paths; the eighth at non-termination and exponential blow-up, non-string values (ints, tuples, falsy values),\n"
+        "`__eq__` / `__hash__` of the small value classes, declared-but-unused parts of an object, aliasing of collections\n"
+        "passed by the caller). Each was confirmed here in a scratch worktree of /repo HEAD\n"
         "(`tools/seedcheck.sh`: the suite passes with the change, the demonstration fails with it and passes without it)\n"
         "and is kept under `/verif/seeded/<id>/` (`patch.diff`, `demo.py`, `notes.md`, `meta.json` with what was run).\n"
         "Patches that later fix commits had made inapplicable were rebased by hand onto the final tree (`meta.json` says so\n"
@@ -74,6 +76,12 @@ re-verified on the unchanged tree over several `VERIF_SEED` values):
   FX-40, and are not kept either. Looking at what these two rounds varied also exposed two more
   defects of the pinned library itself (FX-37: `is_equivalent_to` sorted symbols of incomparable types; FX-38:
   `substitute` with non-string variable values).
+* Round 8: a chain of k diamonds (one word, 2^k runs) joined the C04 workload, so that an enumeration that stops merging
+  runs fails the bounded-liveness clause (C04-r8-enumeration-exponential-runs); grammars are built with the start symbol
+  handed over as a plain value, and C08 / C12 have int-valued variables (start symbol 0, a falsy value:
+  C08-r8-falsy-start-symbol); tuple-valued terminals -- letters of a product alphabet -- in C13 / C11 / C08
+  (C13-r8-terminal-name-by-format); automata with int and str state values as C11's regular operand
+  (C11-r8-states-sorted-by-value).
 * FX-26 (stale converter index, re-introduced by `./selftest regressions`): scenario template `reintersect` with a
   four-state DFA whose state set re-hashes when a fifth state is added.
 
